@@ -72,9 +72,7 @@ def compare(x, toks, sig):
 
 
 def known(toks):
-    return {
-        'C08-print-shorthand': sig_kinds(ST.views(toks), ['name?']),
-    }
+    return {}
 
 
 def kinds(x, p):
@@ -141,10 +139,13 @@ EVERY = [
     'x=t[a+b] f(a+b,c*d) t={a+b,[c+d]=e+f,g=h+i} local y,z=a+b,c+d\n'
     'x,y=a+b,c+d x+=a+b\nreturn a+b,c+d\n',
     'x=-a+b x=not a+b x=#a+b x=(a+b)+c x=f(a)+b x=a.b+c x=a[b]+c\n',
+    # the ? print shorthand: line scoped, any argument list
+    '?x,y\nz=1\n', '?"s"', '? "a",1+2,f(x) -- c\nz=1\n',
+    'if (a) ?x\n?y,z --c\nif a then ?x\nend\nx=1 ?x\n',
 ]
 Q = {'_budget': 400}
 CONTEXTS = [
-    ('if (n) ', '\nn=1\n'), ('do ', ' end\n'), ('function f() ', ' end\n'),
+    ('?', '\nn=1\n'), ('if (n) ', '\nn=1\n'), ('do ', ' end\n'), ('function f() ', ' end\n'),
     ('x=1 ', ''), ('while x do ', ' end --c\n'), ('if x then ', ' else y=1 end\n'),
     ('t={', '}\n'), ('f(', ')\n'),
 ]
@@ -154,7 +155,7 @@ HARNESSES = [
             thorough=[dict(Q, k=1), dict(Q, k=2), dict(Q, k=3),
                       dict(Q, k=4, _budget=3000)]),
     Harness('context', context,
-            quick=[dict(Q, pre=a, post=b, k=1) for a, b in CONTEXTS[:4]] +
+            quick=[dict(Q, pre=a, post=b, k=1) for a, b in CONTEXTS[1:5]] +
                   [dict(Q, pre='if (n) ', post='\nn=1\n', k=2),
                    dict(Q, pre='if (n) ', post='x=1', k=1, tail_gap=False),
                    dict(Q, pre='x=1 ', post='return x', k=1, tail_gap=False),
@@ -162,9 +163,13 @@ HARNESSES = [
                         tail_gap=False),
                    dict(Q, pre='if (a) if (b) c=1 ', post='\nd=2\n', k=1),
                    dict(Q, pre='if (a) ', post=' if (b) c=1 else e=3\nd=2\n',
-                        k=1)],
+                        k=1),
+                   dict(Q, pre='?', post='\nn=1\n', k=2),
+                   dict(Q, pre='?x', post='n=1\n', k=1),
+                   dict(Q, pre='if (n) ?x', post='n=1', k=1, tail_gap=False),
+                   dict(Q, pre='do ?', post='end\n', k=2)],
             thorough=[dict(Q, pre=a, post=b, k=2, _budget=1800)
                       for a, b in CONTEXTS] +
                      [dict(Q, pre=a, post=b, k=3, _budget=3000)
-                      for a, b in CONTEXTS[:3]]),
+                      for a, b in CONTEXTS[:4]]),
 ]
